@@ -81,8 +81,8 @@ def structural(ctx, rng, count, all32):
     return res
 
 
-def moment_audit(ctx, rng, c, line, io, b):
-    """returns a description of a violated row block, or None"""
+def moment_audit(ctx, rng, c, line, io, b, pinned=None):
+    """returns (description of a violated row block, the point and scale) or None; `pinned` = [(point, scale)] to try first"""
     inst = c['inst']
     if inst['v'] is not None and not inst.get('vdiag'):
         return None          # v = C w + d with general C: a w with C w + d = t*exp(alpha x) need not exist
@@ -92,9 +92,10 @@ def moment_audit(ctx, rng, c, line, io, b):
     if inst.get('xscale'):
         pts = [[v * sc for v, sc in zip(p, inst['xscale'])] for p in pts]
     vids = [int(i) for i in (b.vvar if inst['v'] is None else b.user).scalar_variable_ids]
-    for xt in pts:
+    plan = [(list(xt), [float(t)]) for xt, t in (pinned or [])] + [(xt, (0.0, 1.0, rng.choice([0.5, 2.0, 3.0]))) for xt in pts]
+    for xt, ts in plan:
         x = np.asarray(xt[:n])
-        for t in (0.0, 1.0, rng.choice([0.5, 2.0, 3.0])):
+        for t in ts:
             v = t * np.exp(alpha @ x)
             if inst['v'] is None:
                 sigma = {vid: float(v[j]) for j, vid in enumerate(vids)}
@@ -113,7 +114,7 @@ def moment_audit(ctx, rng, c, line, io, b):
             ctx.count('audit:points')
             if mem is False:
                 return ('the moment assignment of the point x~=%s of X with scale t=%s (v = t*exp(alpha x), mu_i = v_i x~) violates the compiled '
-                        'dual SAGE constraint' % (xt, t))
+                        'dual SAGE constraint' % (xt, t)), [list(xt), float(t)]
             if mem is None:
                 ctx.count('audit:on-boundary(accepted)')     # moment vectors satisfy the relative-entropy rows with equality
     return None
@@ -123,11 +124,12 @@ def run(ctx):
     rng = ctx.rng
     ctx.lean = common.lean_check('C02')
     quick = ctx.quick()
+    common.run_regressions(ctx, 'C02', recheck)
     res = structural(ctx, rng, 150 if quick else 600, all32=not quick)
     for c, line, io, b in res:
         why = moment_audit(ctx, rng, c, line, io, b)
         if why:
-            ctx.violation('moment vector rejected: ' + why, {'stream': 'audit', 'case': c})
+            ctx.violation('moment vector rejected: ' + why[0], {'stream': 'audit', 'case': c, 'point': why[1]})
     if (not ctx.lean.ok or ctx.disagreements) and not ctx.violations:
         common.broken_report(ctx, 'moment-vector audit found no failing input among %d structural cases' % len(res))
     return ctx.finish(
@@ -136,6 +138,18 @@ def run(ctx):
              'automatic / full / user covers, default + random settings (all 32 per instance in the thorough tier), v a Variable or an '
              'affine image; audit: moment assignments of sampled points of X at t in {0, 1, random}; distinct = distinct JSON',
         trusted=TRUSTED, assumptions=ASSUME)
+
+
+def recheck(r):
+    """execute the stored input of a violation again; the violation it (still) shows, or None"""
+    import random
+    ctx, rng = common.RecCtx(), random.Random(0)
+    c = r['case']
+    b = sm.build(c['inst'], c['settings'])
+    line = sm.model_line(c['inst'], c['settings'], b)
+    io = sm.impl_compile(b)
+    why = moment_audit(ctx, rng, c, line, io, b, pinned=[r['point']] if r.get('point') else None)
+    return ('moment vector rejected: ' + why[0]) if why else None
 
 
 def replay(obj):
